@@ -9,10 +9,14 @@
     lp pbkdf <256|512> <R> verify|identify|needs …
     lp passlib <256|512> verify <hash cps> <hexsecret>       -> the classic hasher (Model.VerifyCrypt) on the same string
     lp passlib <256|512> hash   <hexsecret> <salt cps> <rounds>
+    lp bc <R> identify|needs <hash cps>
+    lp bc <R> verify <hash cps> <0|1|E>        -- what bcrypt.checkpw answered (E = it raised ValueError) on the real side
     lp bcsha <R> identify|needs <record cps>
     lp bcsha <R> verify <record cps> <0|1>     -- the last field is what bcrypt.checkpw answered on the real side (bcrypt is a parameter of the model)
 -/
 import PasslibVerif.Model.Libpass
+import PasslibVerif.Model.LibpassCodec
+import PasslibVerif.Model.LibpassBcrypt
 import PasslibVerif.Model.VerifyCrypt
 import PasslibVerif.Model.B64
 import PasslibVerif.Spec.Pbkdf
@@ -28,15 +32,10 @@ def sha (v : String) (R : Nat) : Option ShaHasher :=
   | "512" => some ⟨ofString "$6$", 86, R, fun b salt r => Model.ShaCrypt.lpSha512 Spec.SHA512.sha512 b salt r⟩
   | _ => none
 
-def ab64Dec (s : Str) : Res Bytes :=
-  match Model.B64.ab64Decode s with
-  | some r => r
-  | none => .error .typeError        -- foreign characters: outside the codec model
-
 def pbkdf (v : String) (R : Nat) : Option PbkdfHasher :=
   match v with
-  | "256" => some ⟨ofString "pbkdf2-sha256", R, fun p s r => Spec.Pbkdf.pbkdf2 Spec.SHA256.sha256 64 32 p s r 32, Model.B64.ab64Encode, ab64Dec⟩
-  | "512" => some ⟨ofString "pbkdf2-sha512", R, fun p s r => Spec.Pbkdf.pbkdf2 Spec.SHA512.sha512 128 64 p s r 64, Model.B64.ab64Encode, ab64Dec⟩
+  | "256" => some (lpPbkdf256 R)
+  | "512" => some (lpPbkdf512 R)
   | _ => none
 
 def showB : Res Bool → String := showRes (fun b => if b then "True" else "False")
@@ -63,6 +62,14 @@ def handle (args : List String) : String :=
     | some h, some hs => showB (match h.inspect hs with | .error e => .error e | .ok x => .ok x.isSome) | _, _ => bad
   | ["pbkdf", v, r, "needs", hs] => match r.toNat?.bind (pbkdf v), natList hs with
     | some h, some hs => showB (h.needsUpdate hs) | _, _ => bad
+  | ["bc", r, "identify", hs] => match r.toNat?, natList hs with
+    | some R, some hs => showB ((⟨R, fun _ _ => .ok false⟩ : BcHasher).identify hs) | _, _ => bad
+  | ["bc", r, "needs", hs] => match r.toNat?, natList hs with
+    | some R, some hs => showB ((⟨R, fun _ _ => .ok false⟩ : BcHasher).needsUpdate hs) | _, _ => bad
+  | ["bc", r, "verify", hs, ck] => match r.toNat?, natList hs with
+    | some R, some hs =>
+      let ans : Res Bool := if ck == "E" then .error .valueError else .ok (ck == "1")
+      showB ((⟨R, fun _ _ => ans⟩ : BcHasher).verify hs []) | _, _ => bad
   | ["bcsha", r, "identify", hs] => match r.toNat?, natList hs with
     | some R, some hs => showB ((⟨R, fun _ _ _ _ _ => false⟩ : BcSha256Hasher).identify hs) | _, _ => bad
   | ["bcsha", r, "needs", hs] => match r.toNat?, natList hs with
